@@ -163,6 +163,20 @@ theorem consume_keeps_N_largest (n : Nat) (hn : 0 < n) (ids : List Int) (hpos : 
   obtain ⟨inv, hlen⟩ := runAcc_inv ids (newBuf n) [] hne hpos (inv_init n)
   exact ⟨by rw [hlen]; simp [newBuf], inv.sub, inv.largest, inv.distinct⟩
 
+/-- **No id is ever accepted twice.**  Over any history of positive ids — any length, any order,
+any number of repetitions, including copies of ids that were meanwhile evicted from the N-slot
+buffer — the list of accepted ids has no duplicates: a replayed frame is never handled again. -/
+theorem no_id_accepted_twice (n : Nat) (hn : 0 < n) (ids : List Int) (hpos : ∀ x ∈ ids, 0 < x) :
+    (runAcc (newBuf n) [] ids).2.Nodup := by
+  have hne : newBuf n ≠ [] := by
+    unfold newBuf; cases n with
+    | zero => omega
+    | succ k => simp [List.replicate_succ]
+  exact runAcc_nodup ids (newBuf n) [] hne hpos (inv_init n) List.nodup_nil
+
+/-- Non-vacuity: with N = 2, id 1 is accepted, evicted by 5 and 7, and its replay is refused. -/
+example : (runAcc (newBuf 2) [] [1, 5, 7, 1, 5, 9]).2 = [9, 7, 5, 1] := by decide
+
 /-- The unrepaired `Consume` (minimum search started at `minID = 0, idx = 0`) remembers one id
 only: after 10, 20, 30 the replay of 10 is accepted — the witness of defect D1. -/
 theorem consume_old_counterexample :
